@@ -18,7 +18,7 @@ import time
 
 VERIF = os.path.dirname(os.path.dirname(os.path.abspath(__file__)))
 REPO = os.environ.get('VERIF_REPO', '/repo')
-WORK = os.path.join(VERIF, 'work')
+WORK = os.environ.get('VERIF_WORK') or os.path.join(VERIF, 'work')
 
 ENV = dict(os.environ, CARGO_NET_OFFLINE='true', CARGO_TERM_COLOR='never')
 ENV.pop('RUSTUP_TOOLCHAIN', None)
